@@ -27,6 +27,7 @@ func main() {
 	replay := flag.String("replay", "", "violation file to re-evaluate")
 	list := flag.Bool("list", false, "list properties and rules")
 	manifest := flag.String("manifest", "", "write MANIFEST.json to this path and exit")
+	genRef := flag.String("gen-ref", "", "dev: write the reference shapes (struct fields, signatures) of the current tree to this Go file")
 	flag.BoolVar(&verbose, "v", false, "print every obligation")
 	flag.Parse()
 	if *tier == "" {
@@ -86,6 +87,13 @@ func main() {
 			failLoad(*verif, id, *tier, seed, start, err)
 		}
 		os.Exit(1)
+	}
+	if *genRef != "" {
+		if err := p.genRef(*genRef); err != nil {
+			fmt.Fprintln(os.Stderr, err)
+			os.Exit(2)
+		}
+		return
 	}
 	exit := 0
 	for _, id := range props {
